@@ -256,6 +256,16 @@ VARIANTS = [
         {"file": HEM, "old": '                if parsed.get("uploader"):', "new": '                if "uploader" in parsed:'},
         {"file": REG, "old": "        self.caps.add(name, (cap_type, cap_url))\n        self._recalc_caps()",
          "new": "        if not cap_url:\n            raise ValueError('empty cap URL')\n        self.caps.add(name, (cap_type, cap_url))\n        self._recalc_caps()"}]},
+    # ---- round 4 mechanisms
+    {"name": "R9 regions without a handle are not asked to resolve", "file": SESS, "expect": "C16.R9",
+     "old": "            resolved_cap = region.resolve_cap(url)\n",
+     "new": "            if not region.handle:\n                continue\n            resolved_cap = region.resolve_cap(url)\n"},
+    {"name": "R9 only the main region is asked", "file": SESS, "expect": "C16.R9",
+     "old": "        for region in self.regions:\n            resolved_cap = region.resolve_cap(url)",
+     "new": "        for region in self.regions[:1]:\n            resolved_cap = region.resolve_cap(url)"},
+    {"name": "P R9 regions iterated over a snapshot", "file": SESS, "expect": "silent",
+     "old": "        for region in self.regions:\n            resolved_cap = region.resolve_cap(url)",
+     "new": "        for region in tuple(self.regions):\n            resolved_cap = region.resolve_cap(url)"},
     # ---- documented limits
     {"name": "X only https URLs are tracked (validity filter is value-level)", "file": REG, "expect": "miss",
      "old": "cap_url.startswith('http')", "new": "cap_url.startswith('https')"},
